@@ -635,3 +635,135 @@ def check_c08(res, tier, replay):
     })
     res.assumptions = ['positive values (a zero price divides by zero, outside the property domain)']
     return res.finish()
+
+
+# ------------------------------------------------------------------------------------------ C14
+WRAPPED = ['And:Macd+Rsi', 'Or:Macd+Rsi', 'Majority:Macd+Rsi+Trix', 'Split:Macd+Rsi', 'Inverse:Macd', 'NoLoss:Macd',
+           'StopLoss:Macd', 'And:Bop+BuyAndHold', 'Or:Vwma+GoldenCross', 'Majority:Kdj+Bop+Rsi', 'NoLoss:Rsi', 'Inverse:Kdj']
+
+
+def parse_report(line):
+    if not line.startswith('ok'):
+        return None
+    parts = line.split(' | ')
+    d = parts[0].split('dates=')[1].strip()
+    dates = [] if d == '-' else [int(x) for x in d.split(',')]
+    cols = []
+    for p in parts[1:]:
+        name, typ, vals = p.split(':', 2)
+        cols.append((name, typ, [] if vals.strip() == '-' else vals.strip().split(',')))
+    return dates, cols
+
+
+def check_c14(res, tier, replay):
+    rng = random.Random(vlib.seed() + 14)
+    vlib.apply_obligations(res, 'C14')
+    findings = load_findings('C14')
+    if replay:
+        cases = replay_cases(replay)
+    else:
+        cases = [c for c in gen_strat_cases(rng, tier, per=(4 if tier == 'quick' else 30))
+                 if len(c[3]['c']) > strat_idle(c[0], c[1])]
+        for wname in WRAPPED:
+            for _ in range(2 if tier == 'quick' else 10):
+                o, regime = gen_ohlcv(rng, rng.randrange(12, 80))
+                cases.append((wname, [], [], o, regime))
+    rlines = ['r%d %s' % (i, strat_line(c[0], c[1], c[2], c[3]).replace('STRAT', 'REPORT', 1)) for i, c in enumerate(cases)]
+    slines = ['s%d %s' % (i, strat_line(c[0], c[1], c[2], c[3])) for i, c in enumerate(cases) if ':' not in c[0]]
+    go = vlib.run_go(rlines + slines)
+    bad = 0
+    cells = set()
+    known = collections.defaultdict(int)
+    stats = collections.Counter()
+    for i, c in enumerate(cases):
+        name, ns, fs, o, regime = c
+        n = len(o['c'])
+        rep = parse_report(go.get('r%d' % i, 'missing'))
+        cells.add((name, tuple(ns), regime))
+        if rep is None:
+            bad += 1
+            res.violation({'case': case_json(c), 'go_output': go.get('r%d' % i, 'missing')[:300],
+                           'oracle': 'every column and the date axis must close once drained by independent readers'})
+            continue
+        dates, cols = rep
+        problems = []
+        d = n - len(dates)
+        if d < 0 or dates != list(range(d, n)):
+            problems.append('date axis is not a suffix of the snapshot dates: %s…' % dates[:5])
+        for (cn, typ, vals) in cols:
+            stats['columns'] += 1
+            if len(vals) != len(dates):
+                problems.append('column %s has %d values for %d dates' % (cn, len(vals), len(dates)))
+        acts = parse_strat(go.get('s%d' % i, 'missing')) if ':' not in name else None
+        if not problems and d >= 0:
+            for (cn, typ, vals) in cols:
+                if cn == 'Close' and [h2f(v) for v in vals] != o['c'][d:]:
+                    problems.append('Close column is not the closing price of its date')
+            if acts and acts['status'] == 'ok' and len(acts['actions']) >= n:
+                a = acts['actions'][:n]
+                ann = ['B' if x == B else ('S' if x == S else '.') for x in py_norm(a)]
+                outc = [v * 100 for v in py_outcome(o['c'], a)]
+                for (cn, typ, vals) in cols:
+                    if cn == 'annotation':
+                        stats['annotation_columns'] += 1
+                        if vals != ann[d:]:
+                            problems.append('annotation column differs from the normalised actions of the same dates')
+                    if cn == 'Outcome':
+                        stats['outcome_columns'] += 1
+                        got = [h2f(v) for v in vals]
+                        if len(got) != len(outc[d:]) or any(abs(x - y) > 1e-9 * max(1.0, abs(y)) for x, y in zip(got, outc[d:])):
+                            problems.append('Outcome column differs from the outcome of the same dates')
+            # indicator columns: plotted against the dates they were computed for
+            if ':' not in name and SCAT.get(name, {}).get('inds'):
+                vals_ind = indicator_values(c, None)
+                for (cn, typ, vals) in cols:
+                    if typ != 'number' or cn in ('Close', 'Outcome') or vals_ind is None:
+                        continue
+                    got = [h2f(v) for v in vals]
+
+                    def matches(w, s, shift):
+                        hit = 0
+                        for k, g in enumerate(got):
+                            j = d + k - w + shift
+                            if j < 0:
+                                continue
+                            if j >= len(s):
+                                return False
+                            e = s[j]
+                            if (e != e and g != g) or e == g or abs(e - g) <= 1e-12 * max(abs(e), abs(g)):
+                                hit += 1
+                            else:
+                                return False
+                        return hit >= 2
+                    ok0 = any(matches(w, s, 0) for (w, s) in vals_ind)
+                    if ok0:
+                        stats['indicator_columns_aligned'] += 1
+                    else:
+                        off = [sh for sh in (-2, -1, 1, 2) if any(matches(w, s, sh) for (w, s) in vals_ind)]
+                        if off:
+                            problems.append('indicator column %s is drawn %+d day(s) away from the dates it was computed for' % (cn, -off[0]))
+                        else:
+                            stats['indicator_columns_unmatched'] += 1
+        if problems:
+            if name in findings:
+                known[name] += 1
+                continue
+            bad += 1
+            res.violation({'case': case_json(c), 'problems': problems, 'columns': [(cn, len(v)) for cn, _, v in cols], 'dates': len(dates),
+                           'oracle': 'one value per date in every column; close / annotation / outcome / indicator values are those of the row date'})
+    for comp, f in findings.items():
+        if known.get(comp):
+            res.known_hit.append(known_line(f) + ' [%d cases]' % known[comp])
+    res.samples = [{'case': rlines[i][:160] + '…', 'go': go.get('r%d' % i, '')[:160]} for i in (0, len(rlines) // 2)]
+    res.coverage.update({
+        'evaluations': len(cases), 'distinct_nontrivial': len(cells),
+        'rule': 'strategy (32 base, 12 compound/decorated) x configuration x regime, series longer than the warm-up; the date channel and every '
+                'column channel of the Report are drained by independent readers (reflection on the private `values` field) and compared',
+        'column_statistics': dict(stats), 'violations_found': bad, 'known_findings_seen': dict(known),
+        'traces_validated_against_impl': len(cases), 'trusted_base': vlib.TRUSTED +
+        ['the template pulls one value per column per date (helper/report.tmpl: `range .Date` calling .Value on every column), so equal channel lengths = one value per row'],
+    })
+    res.assumptions = ['indicator columns are matched against the documented indicator run on the documented fields; a column that matches none '
+                       '(e.g. KdjStrategy.Report computes KDJ from (high, high, close)) is counted as unmatched, not judged',
+                       'HTML rendering itself (text/template) is trusted']
+    return res.finish()
